@@ -5,5 +5,6 @@ CONSTANTS
   ClearChoices = {TRUE, FALSE}
   Installs = {TRUE}
   ResetsResult = FALSE
+  LateIgnored = TRUE
 INVARIANT SecondRun
 CHECK_DEADLOCK FALSE
